@@ -96,6 +96,18 @@ type lagPods struct {
 	ns string
 }
 
+// List answers in name order (the fake tracker ranges over a map: the order of a pod list is the harness's to decide, it
+// is varied by the names the scenarios give to the pods).
+func (p *lagPods) List(ctx context.Context, opts metav1.ListOptions) (*corev1.PodList, error) {
+	l, err := p.PodInterface.List(ctx, opts)
+	if err == nil && l != nil {
+		sort.Slice(l.Items, func(i, j int) bool {
+			return l.Items[i].Namespace+"/"+l.Items[i].Name < l.Items[j].Namespace+"/"+l.Items[j].Name
+		})
+	}
+	return l, err
+}
+
 func (p *lagPods) Get(ctx context.Context, name string, opts metav1.GetOptions) (*corev1.Pod, error) {
 	if opts.ResourceVersion == "0" {
 		if old, ok := p.h.stale[p.ns+"/"+name]; ok {
@@ -220,6 +232,9 @@ type cniPod struct {
 	ExtendedArg string // value of the galaxy args annotation ("" = none)
 	HostPort    int32  // > 0: the container declares this host port (tcp, container port 80)
 	HostPort2   int32  // > 0: and this second one (udp, container port 53)
+	PortMapOn   bool   // the pod carries the port-mapping annotation (random host ports allowed; galaxy records the ports in it)
+	HostIP      string // host IP of the first port ("" = any)
+	HostIP2     string // host IP of the second port
 	Labels      map[string]string
 }
 
@@ -232,10 +247,13 @@ func (h *cniHarness) putPod(p cniPod) {
 	if p.ExtendedArg != "" {
 		pod.Annotations[constant.ExtendedCNIArgsAnnotation] = p.ExtendedArg
 	}
-	if p.HostPort > 0 {
-		pod.Spec.Containers[0].Ports = []corev1.ContainerPort{{HostPort: p.HostPort, ContainerPort: 80, Protocol: corev1.ProtocolTCP}}
+	if p.PortMapOn {
+		pod.Annotations["tkestack.io/portmapping"] = ""
+	}
+	if p.HostPort > 0 || p.PortMapOn {
+		pod.Spec.Containers[0].Ports = []corev1.ContainerPort{{HostPort: p.HostPort, ContainerPort: 80, Protocol: corev1.ProtocolTCP, HostIP: p.HostIP}}
 		if p.HostPort2 > 0 {
-			pod.Spec.Containers[0].Ports = append(pod.Spec.Containers[0].Ports, corev1.ContainerPort{HostPort: p.HostPort2, ContainerPort: 53, Protocol: corev1.ProtocolUDP})
+			pod.Spec.Containers[0].Ports = append(pod.Spec.Containers[0].Ports, corev1.ContainerPort{HostPort: p.HostPort2, ContainerPort: 53, Protocol: corev1.ProtocolUDP, HostIP: p.HostIP2})
 		}
 	}
 	if p.WantENI {
@@ -249,6 +267,24 @@ func (h *cniHarness) putPod(p cniPod) {
 	}
 	_ = h.kube.Tracker().Delete(corev1.SchemeGroupVersion.WithResource("pods"), "ns", p.Name)
 	_ = h.kube.Tracker().Add(pod)
+}
+
+// setPodIP plays the kubelet's status update after a successful ADD.
+func (h *cniHarness) setPodIP(name, ip string) {
+	obj, err := h.kube.Tracker().Get(corev1.SchemeGroupVersion.WithResource("pods"), "ns", name)
+	if err != nil {
+		return
+	}
+	if p, ok := obj.(*corev1.Pod); ok {
+		q := p.DeepCopy()
+		q.Status.PodIP = ip
+		_ = h.kube.Tracker().Update(corev1.SchemeGroupVersion.WithResource("pods"), q, "ns")
+	}
+}
+
+// deletePodObject removes the pod from the API server without any CNI request (a pod that went away while galaxy was down).
+func (h *cniHarness) deletePodObject(name string) {
+	_ = h.kube.Tracker().Delete(corev1.SchemeGroupVersion.WithResource("pods"), "ns", name)
 }
 
 // request sends one CNI request through the daemon's HTTP handler.
